@@ -18,7 +18,7 @@ func init() { register("C01", c01) }
 
 func c01(c *core.Check) {
 	c.Explain = "Structural necessary conditions of 'rendering returns': (R1) every explicit panic that is the default of a switch or if-chain over a CSS keyword, an enum constant or a dynamic type is unreachable because the value set of its producers (validator returns refined by path conditions, initial values, computer results, field-based store sets, caller arguments; all constants of the enum; all module types implementing the interface) is included in the handled cases, with a reasoned table of the defaults that rest on invariants this analysis cannot derive; (R2) no integer division or modulo by a possibly zero divisor anywhere in the module; (R3) reference-following recursions are cycle-guarded; (R4) anticipated nil dereferences are guarded; (R5) the re-pagination loop is counted; (R6) inventory of the remaining explicit panics. Page-loop progress, stack depth of structural recursion, index errors and nil dereferences in general are not decided. Also decided: (R7) non-empty preconditions of panicking constructors; (R8) the guard contract of the SVG path interpreter (hasSetsOrMore accepts whole groups only); (R9) the running quote depth, an index, never becomes negative."
-	r2 := c.Rule("R2", "no integer division or modulo by a divisor that may be zero anywhere in the module (an integer division by zero is a run-time panic): the divisor is a non-zero constant, is tested on every path, is non-zero by construction, or every caller passes a non-zero argument; a % used as an index also needs a non-negative dividend", 20)
+	r2 := c.Rule("R2", "no integer division or modulo by a divisor that may be zero anywhere in the module (an integer division by zero is a run-time panic): the divisor is a non-zero constant, is tested on every path, is non-zero by construction, or every caller passes a non-zero argument; a % used as an index also needs a non-negative dividend", 26)
 	divisionRuleNotes(c, r2, func(fn *ssa.Function) bool { return true }, c01DivisionNotes)
 
 	c01Exhaustive(c)
@@ -27,7 +27,7 @@ func c01(c *core.Check) {
 	groupGuardRule(c, r8)
 	r9 := c.Rule("R9", "the running quote depth, which indexes the quotes list, never becomes negative: every store into quoteDepth[0] is clamped at 0, adds a positive constant, or subtracts under a test that the depth is large enough", 2)
 	counterCellRule(c, r9)
-	r10 := c.Rule("R10", "sizes taken from the document are bounded before they size an allocation: colspan and rowspan are read within the limits of the HTML specification (the table grid and the collapsed-border grid are allocated with them), and the pad length of a counter style is clamped before strings.Repeat", 5)
+	r10 := c.Rule("R10", "sizes taken from the document are bounded before they size an allocation: colspan and rowspan are read within the limits of the HTML specification (the table grid and the collapsed-border grid are allocated with them), and the pad length of a counter style is clamped before strings.Repeat", 6)
 	spanBounds(c, r10)
 	padBoundRule(c, r10)
 
@@ -46,7 +46,7 @@ func c01(c *core.Check) {
 		r4.OK(fmt.Sprintf("%d module functions scanned for discarded ok results", nFns), "-", "no comma-ok assertion to a pointer or interface is dereferenced with its ok result unused")
 	}
 
-	r7 := c.Rule("R7", "non-empty preconditions: a function that panics when a string or slice parameter is empty is only called with a non-empty constant, under a test that keeps control away when the argument is empty, or with the caller's own parameter (the requirement then moves to the caller's callers)", 6)
+	r7 := c.Rule("R7", "non-empty preconditions: a function that panics when a string or slice parameter is empty is only called with a non-empty constant, under a test that keeps control away when the argument is empty, or with the caller's own parameter (the requirement then moves to the caller's callers)", 10)
 	reqs, sites := p.NonEmptyRequirements()
 	for _, rq := range reqs {
 		r7.Skip(fmt.Sprintf("requirement | %s parameter %d", core.FuncName(rq.Fn), rq.Param), p.Pos(rq.Fn.Pos()), rq.Why)
@@ -123,7 +123,7 @@ func c01(c *core.Check) {
 // c01Recursion: recursions that follow references named by the document terminate on cyclic references.
 func c01Recursion(c *core.Check) {
 	p := c.Prog
-	r3 := c.Rule("R3", "every recursion that follows a reference named by the document (a custom property by name, a <use> target by id or URL, an href chain between definitions, a counter-style fallback) is guarded against cycles: visited/in-use set tested before and filled before following, or the reference destroyed before recursing", 5)
+	r3 := c.Rule("R3", "every recursion that follows a reference named by the document (a custom property by name, a <use> target by id or URL, an href chain between definitions, a counter-style fallback) is guarded against cycles: visited/in-use set tested before and filled before following, or the reference destroyed before recursing", 12)
 	if rv := p.Fn("html/tree", "resolveVar"); rv == nil {
 		r3.Anchor("html/tree.resolveVar")
 	} else {
